@@ -212,6 +212,7 @@ def run(case, ctx):
     key = {"D": D, "n_lead": n_lead, "sp": sp, "types": sorted(blocks_a), "order_a": orders[0], "order_b": orders[1], "ha": ha, "hb": hb}
     if not viols:
         s = float(rng.integers(2, 6))
+        s = [s, int(s), np.float32(s), jnp.asarray(s)][int(rng.integers(4))]  # python float / int / numpy scalar / 0-d jax array
         ops = [("add", lambda: a + b), ("sub", lambda: a - b), ("add_rev", lambda: b + a), ("mul", lambda: a * s), ("div", lambda: b / s), ("eq_self", lambda: a == a.copy())]
         for name, f in ops:
             try:
